@@ -13,6 +13,7 @@
                   bit of the output, or nothing when a written field owns it; decoders ignore foreign bits *)
 EXTENDS Codecs
 CONSTANTS PilStep,       \* 1: all 2^20 PILs; n > 1: every n-th PIL plus the per-field sweeps
+          Step,          \* the same for the 16 bit CNIs, the MJDs and the times of day
           Fams           \* the case families to run (a subset of DOMAIN Fam)
 VARIABLES ph, fam, cx, cy
 vars == <<ph, fam, cx, cy>>
@@ -30,7 +31,13 @@ BlockSize == 1024
 NBlocks(f) == (Fam[f][1] + BlockSize - 1) \div BlockSize
 PilSweep == {MkPil(d, 0, 0, 0) : d \in 0..31} \cup {MkPil(31, m, 31, 63) : m \in 0..15} \cup {MkPil(0, 0, h, 0) : h \in 0..31}
             \cup {MkPil(31, 15, 0, mi) : mi \in 0..63} \cup {MkPil(d, m, 31, 63) : d \in {0, 31}, m \in 0..15}
-XWanted(f, v) == f # "pil" \/ PilStep = 1 \/ v % PilStep = 0 \/ v \in PilSweep
+Sweep == [pil |-> PilSweep,
+          c16 |-> {0, 65535, 3523, 7619, 64963} \cup {2^k : k \in 0..15} \cup {65535 - 2^k : k \in 0..15},
+          mjd |-> {0, 40586, 40587, 40588, 99999} \cup {d * 10^k : d \in 0..9, k \in 0..4} \cup {99999 - d * 10^k : d \in 0..9, k \in 0..4},
+          utc |-> {h * 3600 : h \in 0..23} \cup {m * 60 : m \in 0..59} \cup (0..59) \cup {86399 - h * 3600 : h \in 0..23}
+                  \cup {86399 - m * 60 : m \in 0..59} \cup (86340..86399) \cup {86400 + 1439}]
+XWanted(f, v) == IF f \notin DOMAIN Sweep THEN TRUE
+                 ELSE LET st == IF f = "pil" THEN PilStep ELSE Step IN (IF v % st = 0 THEN TRUE ELSE v \in Sweep[f])
 
 Init == ph = "start" /\ fam = "-" /\ cx = 0 /\ cy = 0
 Next == \/ /\ ph = "start"
